@@ -131,8 +131,8 @@ def run_tlc(spec, cfg, workdir, *, workers=None, simulate=None, depth=None, seed
     if workers is None:
         workers = NCPU
     java = ["java", "-XX:+UseParallelGC", "-Xss256m"]
-    if heap:
-        java.append("-Xmx" + heap)
+    # several checks (and TLC runs) may share the machine: never take the JVM's default quarter of RAM
+    java.append("-Xmx" + (heap or os.environ.get("VERIF_TLC_HEAP", "6g")))
     if deque:
         java.append("-Dtlc2.tool.queue.IStateQueue=StateDeque")
     cmd = ["timeout", str(int(timeout))] + java + [
